@@ -932,10 +932,12 @@ def unjoin(table, value, key=None, autoincrement=(1, 1), presorted=False,
     else:
         # on the left, return distinct rows from the original table
         # with the value field cut out
-        left = distinct(cutout(table, value))
+        left = distinct(cutout(table, value), buffersize=buffersize,
+                        tempdir=tempdir, cache=cache)
         # on the right, return distinct rows from the original table
         # with all fields but the key and value cut out
-        right = distinct(cut(table, key, value))
+        right = distinct(cut(table, key, value), buffersize=buffersize,
+                         tempdir=tempdir, cache=cache)
     return left, right
 
 
